@@ -88,9 +88,21 @@ def assign_operands(impl, fname, instr, name, after, plan):
     """instr.<operand field> = new operand, for the operand indices in plan (same object)"""
     row = impl.rows[fname][name]
     fields, kinds = ct.operand_fields(row["cls"])
+    RN = impl.encoding.RegisterName
     for j in plan:
         a, n = operand_slices(row)[j]
-        setattr(instr, fields[j], ct.mk_operand(impl.operand, impl.encoding, kinds[j], after[a:a + n]))
+        lv = after[a:a + n]
+        old = getattr(instr, fields[j])
+        if kinds[j] in ("KEntry", "KSlice") and (a + n + j) % 2 == 0:
+            # change the FIELDS of the operand object in place (as the assembler does when it materialises an index)
+            old.address = impl.operand.Address(lv[0])
+            if kinds[j] == "KEntry":
+                old.index = impl.operand.Register(RN(lv[1]), lv[2])
+            else:
+                old.start = impl.operand.Register(RN(lv[1]), lv[2])
+                old.stop = impl.operand.Register(RN(lv[3]), lv[4])
+        else:
+            setattr(instr, fields[j], ct.mk_operand(impl.operand, impl.encoding, kinds[j], lv))
 
 
 def host_line(impl, n):
@@ -188,6 +200,54 @@ def poison_buffer(rng, impl, fname, raw):
     return bytes(raw[: len(raw) - rng.randint(1, 6)]) if len(raw) > 10 else bytes(raw) + b"\x00\x01"
 
 
+def path_stage(ctx, impl, n):
+    """the real path: source text (or ICmd objects) -> ProtoSubroutine, which is FORMATTED (as the connection does for
+    its debug log on every compile()/flush()) -> assemble_subroutine (which rewrites literal indices in place) ->
+    every instruction of the assembled subroutine: str(instr) vs the model printer, and parse(str(instr)) == [instr]"""
+    import asm_gen as ag
+    rng = ctx.rng
+    per = {f: [] for f in ac.FLAVS}
+    n_prog = 0
+    for _ in range(n):
+        fname = rng.choice(ac.FLAVS)
+        rows = impl.ct["flavours"][fname]["rows"]
+        prog = ag.gen_exec_prog(rng, max_len=8) if rng.random() < 0.6 else ag.gen_any_prog(rng, rows, max_len=8)
+        try:
+            if rng.random() < 0.5:
+                text = "\n".join(["# NETQASM 1.0", "# APPID 0"] + ac.render_text(rng, prog)) + "\n"
+                proto = impl.text.parse_text_protosubroutine(text)
+                src = dict(text=text)
+            else:
+                proto = impl.mk_proto(prog)
+                src = dict(prog=prog)
+            formatted = [str(proto)] + [str(c) for c in proto.commands]  # noqa: F841  (debug-log formatting)
+            sub = impl.text.assemble_subroutine(proto, flavour=impl.flav[fname])
+        except Exception:  # the program is rejected: nothing printed
+            continue
+        n_prog += 1
+        for k, instr in enumerate(sub.instructions):
+            text = str(instr)
+            instr_plain = instr
+            ok, back, err = parse_back(impl, fname, instr_plain, text)
+            view = impl.view_instr(instr)
+            r = dict(instr=view, str=text, back=back, ok=ok, err=err, tag="assembled-after-formatting", flavour=fname,
+                     source=src, line=k)
+            per[fname].append(r)
+            ctx.note_case((fname, "path", view[0], tuple(view[1]), text), nontrivial=True)
+            if not ok:
+                ctx.violation("an instruction of a subroutine assembled from a ProtoSubroutine that had been formatted "
+                              "prints text that does not parse back to it",
+                              dict(flavour=fname, line=k, cls=view[0], operands=view[1], printed=text, parsed_back=back,
+                                   err=err, **src), key=None)
+    bad = ac.run_sharded(ctx, ac.write_pcase_file, per, 400, "path")
+    n_instr = sum(len(v) for v in per.values())
+    ctx.coverage["assembled_after_formatting"] = dict(programs=n_prog, instructions=n_instr, differences=len(bad))
+    if bad and not ctx.violations:
+        (f, i), code = sorted(bad.items())[0]
+        ctx.broken.append(f"correspondence Text.pp_instr / parse_line on assembled instructions (code {code}): "
+                          f"{json.dumps(per[f][i])[:500]}")
+
+
 def evaluate(ctx, impl, items, prefix):
     per = {f: [] for f in ac.FLAVS}
     meta = {f: [] for f in ac.FLAVS}
@@ -210,7 +270,9 @@ def run(ctx):
                 "the current operands; plus random in-range sequences (len 1..25) through text -> binary -> text, half of "
                 "them printed twice around in-place changes of 1..3 instructions, every one also decoded by ONE long-lived "
                 "Deserializer object per flavour that is fed rejected messages (unknown opcode, truncated) in between; a "
-                "share of instructions carries lineno=HostLine(..) (compared modulo lineno); non-trivial = every case; distinct = "
+                "share of instructions carries lineno=HostLine(..) (compared modulo lineno); in-place changes also rewrite the FIELDS "
+                "of entry/slice operand objects; the real path text/ICmds -> ProtoSubroutine -> formatted -> assembled -> every "
+                "instruction printed and parsed back; non-trivial = every case; distinct = "
                 "distinct (flavour, class, operands [before, after])")
     impl = ac.prepare(ctx)
     if impl is None:
@@ -239,6 +301,7 @@ def run(ctx):
                           dict(flavour=r["flavour"], instr=r["instr"], lineno=r.get("lineno"), printed=r["str"],
                                parsed_back=r["back"], err=r["err"]), key=None)
     ctx.samples = [dict(flavour=r["flavour"], instr=r["instr"], printed=r["str"]) for r in results[:3] + results[-3:]]
+    path_stage(ctx, impl, 60 if quick else 1500)
     rng = ctx.rng
     n_seq, n_bad, n_mut_seq = (120 if quick else 3000), 0, 0
     from netqasm.lang.parsing.binary import Deserializer
